@@ -19,8 +19,11 @@ class EqValue(GenericValue):
         if self._old_value is undefined:
             state().missing_values += 1
 
-        if not compare_only() and self._new_value is undefined:
+        if self._new_value is undefined:
+            # also in compare-only mode: _get_changes() needs it at session end
             self._changes = []
+
+        if not compare_only() and self._new_value is undefined:
             adapter = Adapter(self._context).get_adapter(self._old_value, other)
             it = iter(adapter.assign(self._old_value, self._ast_node, clone(other)))
             while True:
